@@ -236,7 +236,9 @@ struct SlabHarness : HarnessBase {
 		PS.poisoning = poisoning; PS.page = Policy::pagesize; PS.skew = skew; PS.sb = Policy::sb_size;
 		PS.slab_reservation = aligned ? Policy::slabsize : Policy::slabsize + Policy::sb_size;
 		g_mutex_held = 0;
-		memset(pool_store, 0, sizeof pool_store);
+		// the pool is built in storage that is not all-zero (as on a re-used stack slot or heap block): what its
+		// constructor leaves untouched stays this recognisable non-canonical pattern (and is part of the state key)
+		memset(pool_store, 0xA5, sizeof pool_store);
 		new(pool_store) Pool(policy);
 		live.clear(); fails_used = 0; slabs_of.clear(); region_pages.clear();
 		pending().reset();
